@@ -103,6 +103,9 @@ def reuse_programs():
     yield "dag14u", ('Signal a = 1;\nSignal b = 1;\nSignal r = a && b;\nSignal q = a || b;\n')
     # a wire-merged operand next to one of its own members
     yield "dag15", ('Signal a = ("signal-A", 4);\nSignal b = ("signal-A", 5);\nSignal r = ((a + b) + a) * 3;\n')
+    # the same comparison in both spellings (CSE must not identify x > c with c <= x)
+    yield "dag16", ('Signal x = ("signal-A", 6);\nSignal p = (x > 100) : 10;\nSignal q = (100 <= x) : 10;\n'
+                    'Signal r = (x < 7) + (7 >= x) + (x <= 7) + (7 > x);\n')
     yield "dag15b", ('Signal a = ("signal-A", 4);\nSignal b = ("signal-A", 5);\nSignal r = (a + b) - a;\nSignal q = (a + b) * b;\n')
 
 
@@ -159,6 +162,15 @@ def c10_scope(tier):
     fan2 = H + "".join(f"Signal r{i} = (x * {i + 2}) + y;\n" for i in range(4))
     P.append(("fanout-two-sources", fan2))
     P.append(("diamond", H + "Signal t = x + 1;\nSignal u = t * 2;\nSignal v = t * 3;\nSignal r = u + v;\n"))
+    # one anonymous constant (literal bound to a Signal parameter) read by a foldable operation AND by another consumer kind
+    A5 = 'Signal a = ("signal-A", 5);\n'
+    P.append(("const-two-readers", 'func g(Signal s, Signal t) { Signal u = t - s; Signal w = s * 3; return u + w; }\n' + A5 + 'Signal r = g(7, a);\n'))
+    P.append(("const-two-readers-rev", 'func g(Signal s, Signal t) { Signal w = s * 3; Signal u = t - s; return u + w; }\n' + A5 + 'Signal r = g(7, a);\n'))
+    P.append(("const-reader-row", 'func g(Signal s, Signal t) { Signal w = s * 3; Signal u = (t > 2 && t < s) : 4; return u + w; }\n' + A5 + 'Signal r = g(7, a);\n'))
+    P.append(("const-reader-copy", 'func g(Signal s, Signal t) { Signal w = s * 3; Signal u = (t > 2) : s; return u + w; }\n' + A5 + 'Signal r = g(7, a);\n'))
+    P.append(("const-reader-prop", 'func g(Signal s, Signal t) { Signal w = s * 3; Entity l = place("small-lamp", 0, 0); l.enable = s; return t + w; }\n'
+              + A5 + 'Signal r = g(7, a);\n'))
+    P.append(("const-reader-threshold", 'func g(Signal s, Signal t) { Signal w = s * s; return (t > s) : w; }\n' + A5 + 'Signal r = g(7, a);\n'))
     for k in ((2, 3, 4) if tier == "quick" else range(1, 9)):
         lines = ['Signal a = ("signal-A", 10);', "Signal x = a + 1;"]
         for i in range(k):
@@ -208,6 +220,15 @@ def c02_scope(tier):
     P.append(("select-projected", B1 + 'Bundle c = b * 2;\nSignal z = c["iron-plate"] | "signal-Z";\nBundle d = c + 1;\n'))
     P.append(("select-projected-filter", B1 + 'Bundle c = (b > 4) : b;\nSignal z = c["signal-A"] | "signal-Z";\nBundle d = c + 1;\n'))
     P.append(("select-then-arith", B1 + 'Bundle c = b + 7;\nSignal z = c["signal-B"] * 3;\nSignal w = c["signal-A"] - c["signal-B"];\n'))
+    XYS = 'Signal x = ("signal-A", 6);\nSignal y = ("signal-B", 4);\nSignal s = ("signal-C", 3);\n'
+    P.append(("gate-merged-literal", XYS + "Bundle r = { x, y };\nBundle g = (s > 0) : r;\n"))
+    P.append(("gate-merged-inline", XYS + "Bundle g = (s > 0) : { x, y };\n"))
+    P.append(("gate-merged-computed", XYS + "Bundle r = { x * 2, y + 1 };\nBundle g = (s > 0) : r;\n"))
+    P.append(("each-of-merged", XYS + "Bundle r = { x, y };\nBundle g = r * 2;\nBundle h = (r > 4) : r;\n"))
+    P.append(("anon-literal", 'Signal s = ("signal-C", 3);\nBundle g = (s > 0) : { ("signal-A", 1), ("signal-B", 2) };\n'
+              'Bundle h = { ("signal-A", 1), ("signal-B", 2) } * 3;\n'))
+    P.append(("nested-merge", XYS + "Bundle a = { x, y };\nBundle b = { a, s };\nBundle c = b + 1;\n"))
+    P.append(("scalar-shared-gate", B1 + S + "Bundle g = (s > 2) : b;\nBundle m = b * s;\n"))
     P.append(("zero-members", 'Bundle b = { ("signal-A", 0), ("signal-B", 5) };\nBundle r = b + 10;\nSignal q = all(b) > 3;\nSignal p = any(b) < 1;\n'))
     return P
 
@@ -295,6 +316,16 @@ def c15_scope(tier):
     P.append(("entity-param", 'func cfg(Entity e, Signal s) { e.enable = s > 2; }\n' + X + 'Entity a = place("small-lamp", 0, 0);\ncfg(a, x);\nEntity b = place("small-lamp", 2, 0);\ncfg(b, y);\n'))
     P.append(("entity-return", 'func mk(int px, Signal s) {\n  Entity l = place("small-lamp", px, 0);\n  l.enable = s > 1;\n  return l;\n}\n' + X + "Entity a = mk(0, x);\nEntity b = mk(4, y);\n"))
     P.append(("typed-arg-override", 'func f(Signal a, Signal b) { return a - b; }\n' + X + "Signal r = f(x, y);\nSignal q = f(y, x);\n"))
+    # callee-local entity named like an entity of the caller, which the caller uses again after the call
+    P.append(("local-entity-shadows", 'func add_lamp(int px, Signal s) {\n  Entity lamp = place("small-lamp", px, 0);\n  lamp.enable = s > 5;\n}\n' + X
+              + 'Entity lamp = place("small-lamp", 0, 4);\nadd_lamp(2, x);\nlamp.enable = y > 7;\n'))
+    P.append(("local-entity-shadows-loop", 'func mk(int px, Signal s) {\n  Entity lamp = place("small-lamp", px, 0);\n  lamp.enable = s > px;\n  return lamp;\n}\n' + X
+              + 'Entity lamp = place("small-lamp", 0, 4);\nfor i in 0..2 {\n  Entity made = mk(i * 2 + 2, x);\n}\nlamp.enable = y > 7;\n'))
+    # literal bound to a Signal parameter: conditional value / folded chain / property write read it (C10 found these)
+    P.append(("literal-param-cond", 'func g(Signal s, Signal t) { Signal u = (t > 2) : s; return u + 1; }\n' + X + "Signal r = g(7, x);\n"))
+    P.append(("literal-param-row", 'func g(Signal s, Signal t) { return (t > 2 && t < s) : 4; }\n' + X + "Signal r = g(7, x);\n"))
+    # a parameter named like an outer int / the iterator of the loop around the call (C15-3)
+    P.append(("signal-param-shadows-int", 'int k = 6;\nfunc boost(Signal k) { return (k + 1) * 3; }\n' + X + "Signal r = boost(x);\n"))
     return P
 
 
@@ -335,8 +366,11 @@ def c12_scope(tier):
           'Entity g2 = place("small-lamp", 40, 1);', "g2.enable = ga > 3;"]
     P6 = ['Signal pa = ("signal-A", 10);', 'Signal pr = (pa + ("signal-B", 5)) | "signal-C";']
     Q6 = ['Signal qa = ("signal-A", 3);', 'Signal qr = (qa + ("signal-B", 5)) | "signal-D";']
+    # twins: both computations are the SAME text over their own inputs, which start out equal
+    P7 = ['Signal ta = ("signal-A", 5);', "Signal tx = ta * 3;", 'Entity tl = place("small-lamp", 0, 0);', "tl.enable = tx > 20;"]
+    Q7 = ['Signal wa = ("signal-A", 5);', "Signal wx = wa * 3;", 'Entity wl = place("small-lamp", 4, 0);', "wl.enable = wx > 20;"]
     out = []
-    for tag, (A, Bq) in {"far-apart": (P5, Q5), "same-literal": (P6, Q6), "arith": (P1, Q1), "chains": (P2, Q2), "lamps": (P3, Q3), "bundles": (P4, Q4)}.items():
+    for tag, (A, Bq) in {"twins": (P7, Q7), "far-apart": (P5, Q5), "same-literal": (P6, Q6), "arith": (P1, Q1), "chains": (P2, Q2), "lamps": (P3, Q3), "bundles": (P4, Q4)}.items():
         inter = list(_interleavings(A, Bq))
         if tier == "quick":
             inter = inter[:: max(1, len(inter) // 4)]
